@@ -32,6 +32,22 @@ CFG = {
     },
 }
 ROOTS = ['stack::push', 'stack::pop', 'stack::drop']
+SPP = r'(const )?std::(shared_ptr<pred>|__shared_ptr<pred.*>|__shared_ptr_access<pred.*>)'
+OVL_CFG = {
+    'names': {'overload_pred::result': 'overload_pred_result'},
+    'types': {SPP: 'pred *', r'std::nullptr_t': 'void *', r'overload_instance': 'ovl_inst_model'},
+    'types_are_records': {r'overload_instance': True},
+    'record_ctypes': ['ovl_inst_model'],
+    'opaque_records': ['scon', 'stack'],
+    'types_prelude': 'typedef struct scon scon; typedef struct stack stack; typedef struct ovl_inst_model { int dummy; } ovl_inst_model;\n',
+    'bodies_prelude': '#include "ovl_model.h"\n',
+    'virtual': {'pred::result': 'pred_result_model'},
+    'drop': ['overload_instance::show_error'],
+    'extern': {r'overload_instance::find_pred': 'find_pred_model',
+               r'std::__shared_ptr_access<pred.*>::operator->': {'c': 'PTR_ID', 'by_value': True},
+               r'std::operator==\|.*nullptr_t\).*': {'c': 'UPTR_IS_NULL', 'by_value': True}},
+}
+OVL_ROOTS = ['overload_pred::result']
 INPUTS = ['in_n']
 
 
@@ -46,6 +62,9 @@ def jobs(tier):
     add('pop', 'h_pop', 'stack_pop')
     add('drop', 'h_drop', 'stack_drop', unwind=6,
         note='the loop of drop runs at most selector::W = 4 times: full unwinding, complete')
+    J.append(Job('overload_pred_result', [os.path.join(HERE, 'ovl_harness.c'), os.path.join(OUT, 'ovl_bodies.c')], 'h_overload_pred',
+                 enforce='overload_pred_result', includes=inc, timeout=300, inputs=['g_has_overload', 'g_ovl_verdict'],
+                 note='overload_pred::result (overload.cc): no overload => fail; lookup and the selected predicate by a model'))
     add('control', 'h_push', 'stack_push', defines=['VERIF_CONTROL'], kind='control', expect='fail',
         note='same enforcement as push with one deliberately false ensures clause')
     return J
@@ -56,7 +75,8 @@ TRUSTED = ['tools/cxx2c.py lowering', 'props/c11/vecp_model.h: std::vector<std::
 ASSUMPTIONS = [
     'value type codes are 1..127 (value_type::alloc hands them out consecutively; ~20 exist)',
     'stack depth <= 4096 slots (keeps pointer arithmetic in one object); drop(n) checked for n <= 4',
-    'SLICE: only the profile invariant of push/pop/drop; overload lookup (find_selector), operand collection and every word implementation are NOT covered',
+    'overload_pred::result: overload lookup (find_pred) and the selected predicate are modelled (props/c11/ovl_model.h); the diagnostic show_error is dropped',
+    'SLICE: overload lookup (find_selector), operand collection and every word implementation are NOT covered',
 ]
 EXPLANATION = 'Profile invariant of the value stack; see DESIGN.md section 4 C11.'
 
@@ -67,11 +87,28 @@ def spec_files():
 
 def prepare(tier):
     lw = vlib.extract('stack', 'libzwerg/stack.cc', CFG, ROOTS, OUT)
+    ow = vlib.extract('ovl', 'libzwerg/overload.cc', OVL_CFG, OVL_ROOTS, OUT)
+    lw.report['functions'] += ow.report['functions']
+    lw.report['dropped'] += ow.report['dropped']
     return {'unit': 'libzwerg/stack.hh (via stack.cc)', 'functions': lw.report['functions'], 'externals': lw.report['externals'],
             'dropped': lw.report.get('throws', [])}
 
 
+def replay_overload():
+    cases = ['1 !empty', '1 ?empty', '"foo" 1 !find', '1 "1" !starts', '{} !empty']
+    res = vlib.zw_queries(cases, OUT)
+    bad = ['`%s` yields %s' % (q, t.strip()) for q, (c, t) in zip(cases, res) if c]
+    return {'reproduced': bool(bad), 'violations_on_real_library': bad, 'queries': len(cases),
+            'expected': 'an assertion word on operand types it has no overload for holds in neither polarity'}
+
+
 def replay(r):
+    if r.job.name == 'overload_pred_result':
+        return replay_overload()
+    return replay_profile(r)
+
+
+def replay_profile(r):
     """The stale-profile symptom on the real library: after pushes and pops/drops at depth > 4 an overloaded
     word must still dispatch on the true types of the top slots."""
     cases = [('1 2 3 4 5 drop drop drop add', '3'), ('1 2 3 4 5 6 drop drop drop drop add', '3'),
